@@ -22,6 +22,7 @@ type c13read struct {
 	writer  *os.File
 	done    int32
 	started bool
+	probe   int32 // the highest probe number whose line this follow delivered
 }
 
 func init() {
@@ -124,5 +125,151 @@ func init() {
 		}
 		settle()
 		return strings.Join(obs, ",") + ";final=" + fmt.Sprint(len(limiter))
+	}
+
+	// c13.tail <cap> <ops: S<i> follow file i | X<i> truncate file i | W<ms> wait | C<i> cancel>
+	// Follows on regular files against the TAIL limiter: a truncated file makes the reader return and
+	// readCommand.read re-read it after 2 s (the retry loop).  After every op the limiter length and the
+	// number of returned reads are recorded; a watcher samples /proc/self/fd every 2 ms for the largest
+	// number of test files open at once.
+	ops["c13.tail"] = func(a []string) string {
+		cap_ := atoi(a[0])
+		dir, err := os.MkdirTemp(os.Getenv("VERIF_WORK"), "c13t-")
+		if err != nil {
+			panic(err)
+		}
+		defer os.RemoveAll(dir)
+		limiter := make(chan struct{}, cap_)
+		other := make(chan struct{}, 4)
+		reads := map[int]*c13read{}
+		var obs []string
+		var maxReading int32
+		var probeNo, maxActive int32
+		stop := make(chan struct{})
+		go func() {
+			for {
+				select {
+				case <-stop:
+					return
+				default:
+				}
+				// distinct test FILES open (the truncation check opens the followed file a second time)
+				open := map[string]bool{}
+				if ents, err := os.ReadDir("/proc/self/fd"); err == nil {
+					for _, e := range ents {
+						if t, err := os.Readlink("/proc/self/fd/" + e.Name()); err == nil && strings.HasPrefix(t, dir+"/") {
+							open[t] = true
+						}
+					}
+				}
+				n := int32(len(open))
+				if n > atomic.LoadInt32(&maxReading) {
+					atomic.StoreInt32(&maxReading, n)
+				}
+				time.Sleep(2 * time.Millisecond)
+			}
+		}()
+		settle := func() {
+			last, stable := -1, 0
+			for i := 0; i < 200 && stable < 6; i++ {
+				time.Sleep(3 * time.Millisecond)
+				if l := len(limiter); l == last {
+					stable++
+				} else {
+					last, stable = l, 0
+				}
+			}
+		}
+		for _, op := range strings.Fields(strings.ReplaceAll(a[1], ",", " ")) {
+			i := atoi(op[1:])
+			switch op[0] {
+			case 'S':
+				path := filepath.Join(dir, fmt.Sprintf("t%d.log", i))
+				os.WriteFile(path, []byte(strings.Repeat("some line of a log file\n", 20)), 0o644)
+				ctx, cancel := context.WithCancel(context.Background())
+				r := &c13read{cancel: cancel, fifo: path, started: true}
+				reads[i] = r
+				u, _ := user.New("verif", "local")
+				h := serverHandlers.NewServerHandler(u, other, limiter)
+				go func() {
+					for l := range h.VerifC13Lines() {
+						c := l.Content.String()
+						if strings.HasPrefix(c, "probe ") {
+							k := int32(atoi(strings.TrimSpace(c[6:])))
+							if k > atomic.LoadInt32(&r.probe) {
+								atomic.StoreInt32(&r.probe, k)
+							}
+						}
+					}
+				}()
+				go func() {
+					h.VerifC13Read(ctx, path, "t", true)
+					atomic.StoreInt32(&r.done, 1)
+				}()
+			case 'X':
+				if r := reads[i]; r != nil {
+					os.Truncate(r.fifo, 0)
+				}
+			case 'W':
+				time.Sleep(time.Duration(i) * time.Millisecond)
+			case 'C':
+				if r := reads[i]; r != nil {
+					r.cancel()
+					// a cancelled follow returns at once when it waits or reads, and after at most 2 s when it
+					// sits in the retry sleep: observe at quiescence
+					for k := 0; k < 500 && atomic.LoadInt32(&r.done) != 1; k++ {
+						time.Sleep(10 * time.Millisecond)
+					}
+				}
+			}
+			settle()
+			returned := 0
+			for _, r := range reads {
+				if atomic.LoadInt32(&r.done) == 1 {
+					returned++
+				}
+			}
+			obs = append(obs, fmt.Sprintf("%d/%d", len(limiter), returned))
+			// which follows are really following?  Append a numbered probe line to every file and see whose
+			// arrives: a follow that holds a slot and reads delivers it within its 100 ms poll, a queued one
+			// (or one in its retry sleep) does not.
+			probeNo++
+			for _, r := range reads {
+				if f, err := os.OpenFile(r.fifo, os.O_APPEND|os.O_WRONLY, 0); err == nil {
+					fmt.Fprintf(f, "probe %d\n", probeNo)
+					f.Close()
+				}
+			}
+			time.Sleep(350 * time.Millisecond)
+			active := int32(0)
+			for _, r := range reads {
+				if atomic.LoadInt32(&r.probe) == probeNo {
+					active++
+				}
+			}
+			if active > maxActive {
+				maxActive = active
+			}
+		}
+		for _, r := range reads {
+			r.cancel()
+		}
+		// a cancelled follow returns within its poll interval; one in the 2 s retry sleep after it
+		deadline := time.Now().Add(4 * time.Second)
+		for time.Now().Before(deadline) {
+			all := true
+			for _, r := range reads {
+				if atomic.LoadInt32(&r.done) != 1 {
+					all = false
+				}
+			}
+			if all {
+				break
+			}
+			time.Sleep(10 * time.Millisecond)
+		}
+		settle()
+		close(stop)
+		return strings.Join(obs, ",") + ";final=" + fmt.Sprint(len(limiter)) + ";maxreading=" + fmt.Sprint(maxActive) + "," + fmt.Sprint(atomic.LoadInt32(&maxReading))
 	}
 }
